@@ -544,6 +544,14 @@ def run_speed(case, drv):
         if "ok" not in mo:
             agree = False
         else:
+            if d["tempo_ok"] and d["last_ok"] and refs:
+                # the part of scroll_speed_spec that is not proved yet: the model's own output must satisfy the
+                # executable specification exactly (model uses the smallest maximiser / the override)
+                mck = drv.call("c19.speed_check", has_sv=jc["has_sv"], bpms=jc["bpms"], svs=jc["svs"], omin=jc["omin"],
+                               omax=jc["omax"], ref=R(refs[0]), out=mo["ok"])["ok"]
+                if not mck["exact"]:
+                    agree = False
+                    tags.append("model-breaks-spec")
             a = sorted(rows, key=lambda r: (r[0], Fr(-1) if r[1] is None else r[1]))
             b = sorted([(F(t), None if v is None else F(v)) for t, v in mo["ok"]], key=lambda r: (r[0], Fr(-1) if r[1] is None else r[1]))
             if len(a) != len(b):
